@@ -87,9 +87,10 @@ OpResult run_op(const OpSpec &op) {
   g_spy.active = true;
   u8_t key[16];
   memcpy(key, op.key, 16);
-  u8_t rbuf[260];
-  memset(rbuf, 0, sizeof rbuf);
-  if (!op.seedstr.empty()) memcpy(rbuf, op.seedstr.data(), std::min<size_t>(op.seedstr.size(), 255));
+  // the seed is a C string of any length (the CLI hands over 256 random bytes that need not be terminated)
+  std::vector<u8_t> rbuf_v(op.seedstr.size() + 8, 0);
+  if (!op.seedstr.empty()) memcpy(rbuf_v.data(), op.seedstr.data(), op.seedstr.size());
+  u8_t *rbuf = rbuf_v.data();
   simsched::session_begin(op.sc);
   {
     Settings st(op.kind == OP_ENC ? (char)op.cmode : (char)-1, op.kind == OP_ENC ? (char)op.hmode : (char)-1, true);
